@@ -131,6 +131,41 @@ TZS = [None, datetime.timezone.utc, datetime.timezone(datetime.timedelta(hours=5
        datetime.timezone(datetime.timedelta(hours=-12)), datetime.timezone(datetime.timedelta(hours=12, minutes=1)),
        datetime.timezone(datetime.timedelta(minutes=-1))]
 
+CALENDAR_TYPES = (dt.GMonthDay, dt.GDay, dt.GMonth, dt.GYear, dt.GYearMonth, dt.Date, datetime.datetime, datetime.time)
+
+# time zones met by every calendar edge: none, Z, a half-hour zone, both ends of the xs range, one minute west
+CAL_TZ_MIN = [None, 0, 330, -660, 840, -840, -1]
+
+
+def calendar_values():
+    """the eight date/time types of DataTypeDefXsd at the edges of their value spaces, EVERY edge combined with EVERY time
+    zone of CAL_TZ_MIN (the random pools draw day <= 28, and the edge days only without a zone): first and last day of
+    every month length (--02-29, --04-30, --12-31, ---31), leap days of years divisible by 4 / 100 / 400, the first and
+    the last representable year, midnight and the last microsecond of a day.  Returns [(type, value)], a fixed list."""
+    tzs = [None if m is None else datetime.timezone(datetime.timedelta(minutes=m)) for m in CAL_TZ_MIN]
+    out = []
+    for tz in tzs:
+        for mo, d in ((1, 1), (1, 31), (2, 28), (2, 29), (3, 31), (4, 30), (6, 30), (9, 30), (11, 30), (12, 31)):
+            out.append((dt.GMonthDay, dt.GMonthDay(mo, d, tz)))
+        for d in (1, 28, 29, 30, 31):
+            out.append((dt.GDay, dt.GDay(d, tz)))
+        for mo in (1, 2, 12):
+            out.append((dt.GMonth, dt.GMonth(mo, tz)))
+        for y in (1, 4, 1900, 1970, 2000, 9999):
+            out.append((dt.GYear, dt.GYear(y, tz)))
+        for y, mo in ((1, 1), (1900, 2), (2000, 2), (2024, 2), (9999, 12)):
+            out.append((dt.GYearMonth, dt.GYearMonth(y, mo, tz)))
+        for y, mo, d in ((1, 1, 1), (4, 2, 29), (1900, 2, 28), (1970, 1, 1), (2000, 2, 29), (2024, 2, 29), (2023, 2, 28),
+                         (9999, 12, 31)):
+            out.append((dt.Date, dt.Date(y, mo, d, tz)))
+        for args in ((1, 1, 1, 0, 0, 0, 0), (4, 2, 29, 12, 0, 0, 1), (1969, 12, 31, 23, 59, 59, 999999),
+                     (2000, 2, 29, 23, 59, 59, 999999), (2024, 2, 29, 0, 0, 0, 0), (9999, 12, 31, 23, 59, 59, 999999)):
+            out.append((datetime.datetime, datetime.datetime(*args, tzinfo=tz)))
+        for args in ((0, 0, 0, 0), (23, 59, 59, 999999), (12, 0, 0, 500000)):
+            out.append((datetime.time, datetime.time(*args, tzinfo=tz)))
+    return out
+
+
 STR_PLAIN = ["a", "abc", "Some Text", "x" * 40, "ÄÖÜ straße", "日本語", "a b  c"]
 STR_JSON = ['quote"inside', "back\\slash", "line\nbreak", "tab\there", "cr\rhere", "\U0001F600 astral", "/slash",
             " sep", "nul-free\x7f", "{not json}", "[1,2]", "null", "true", "0"]
@@ -139,15 +174,20 @@ STR_XML = [" leading", "trailing ", "  ", " ", "a\nb", "a\r\nb", "a\rb", "\ttab\
 
 
 class Gen:
-    def __init__(self, rng, depth=3, strings="plain", xsd_edge=True, avoid=(), p_opt=0.5, wide_lists=False):
+    def __init__(self, rng, depth=3, strings="plain", xsd_edge=True, avoid=(), p_opt=0.5, wide_lists=False,
+                 calendar_edges=False):
         """wide_lists: SubmodelElementLists over everything the metamodel and the SDK's constraint checks admit, not only
         the shape of the example stores: lists typed by an abstract class (SubmodelElement / DataElement / EventElement)
         with children of mixed concrete classes, valueTypeListElement on lists of any element type (AASd-109 makes it
         mandatory for Property / Range lists and leaves it optional elsewhere), children that omit the semantic id
         their list announces (AASd-107/115) and lists without semanticIdListElement whose children partly share one
-        semantic id (AASd-114).  Off by default: the random stream of the other users of this generator is unchanged."""
+        semantic id (AASd-114).  Off by default: the random stream of the other users of this generator is unchanged.
+        calendar_edges: the eight date/time types also take the values of calendar_values() - every calendar edge (last day
+        of every month length, --02-29, leap days, first/last year, last microsecond of a day) combined with every time-zone
+        class; a quarter of the random draws, and all of them in the deterministic sweep.  Off by default (same reason)."""
         self.rng, self.depth, self.strings, self.xsd_edge = rng, depth, strings, xsd_edge
         self.wide_lists = wide_lists
+        self.calendar_edges = calendar_edges
         self.avoid = set(avoid)
         self.p_opt = p_opt
         self.counter = 0
@@ -206,9 +246,19 @@ class Gen:
             return None
         return self.rng.choice(TZS)
 
+    def calendar_pool(self, t):
+        """the calendar edges of type t admitted by self.avoid ([] for the non-calendar types)"""
+        av = self.avoid
+        return [v for ty, v in calendar_values() if ty is t
+                and not ("tz" in av and v.tzinfo is not None)
+                and not ("sub_ms" in av and getattr(v, "microsecond", 0))]
+
     def xsd_value(self, t):
         r = self.rng
         e = self.xsd_edge
+        if self.calendar_edges and t in CALENDAR_TYPES and r.random() < 0.25:
+            self.feat("calendar-edge")
+            return r.choice(self.calendar_pool(t))
 
         def us():
             if "sub_ms" in self.avoid:
@@ -279,6 +329,13 @@ class Gen:
     # ---- a deterministic sweep over the value pools (no random choice: every edge value occurs in every run)
     def xsd_candidates(self, t):
         """edge values of XSD type t, in a fixed order"""
+        if self.calendar_edges and t in CALENDAR_TYPES:
+            base = self._xsd_candidates(t)
+            have = [canon_leaf(b) for b in base]
+            return base + [v for v in self.calendar_pool(t) if canon_leaf(v) not in have]
+        return self._xsd_candidates(t)
+
+    def _xsd_candidates(self, t):
         av = self.avoid
         tzs = [None] if "tz" in av else TZS
         us = [0] if "sub_ms" in av else [0, 1, 999999, 500000]
